@@ -165,6 +165,16 @@ def gen_cases(tier, rng):
                 for extra in ([], [('X-Other', 'v')]):
                     up = {ua: ('resp', 200, list(extra), ba), ub: ('resp', 200, [('Server', 's')], bb)}
                     cases.append({'differ': differ, 'raw_query': [('a', ua), ('b', ub)], 'upstream': up, 'files': {}, 'differ_mode': 'real'})
+    # charset labels that are aliases of one another must be honoured as what they name: Latin-1 under its other names, bytes 0x80-0x9f
+    c1 = b'<p>price \x80 quoted \x93text\x94 dash \x96 caf\xe9</p><a href="/x">l\x85</a>'
+    for differ in sc.REGISTERED:
+        for cs in ('latin1', 'ISO_8859-1', 'l1', 'cp819', 'iso-ir-100', 'IBM819', 'latin_1', 'iso-8859-1', 'windows-1252', 'cp1252', 'iso8859-15', 'latin9', 'ascii', 'us-ascii'):
+            for media in ('text/html', 'text/plain'):
+                if tier == 'quick' and rng.random() > 0.5 and cs not in ('latin1', 'ISO_8859-1'):
+                    continue
+                up = {'http://site.test/a': sc.ok_up(c1, '%s; charset=%s' % (media, cs)), 'https://site.test/b': sc.ok_up(b'<p>plain</p>', 'text/html; charset=utf-8')}
+                cases.append({'differ': differ, 'raw_query': [('a', 'http://site.test/a'), ('b', 'https://site.test/b'), ('ignore_decoding_errors', 'true'), ('content_type_options', 'ignore')],
+                              'upstream': up, 'files': {}, 'differ_mode': 'real'})
     # a response must not depend on earlier requests: the same bytes served at different URLs under different declared charsets, requested
     # one after the other with their (correct, identical) hashes - and then the first one again
     shared = '<p>caf\u00e9 \u201cquoted\u201d na\u00efve</p><a href="/x">\u00e9</a>'.encode('utf-8')
